@@ -54,6 +54,56 @@ func init() {
 
 // ---------------------------------------------------------------- executor (real code)
 
+// b32aliasCheck: BIP-32's functions are pure, so a key OBJECT must keep its value whatever else is derived or serialised
+// from it. Parse the string once, then, on that one object: serialise it, derive and serialise (and neuter) children at
+// two sibling indexes, serialise the parent again, and walk the op's path again from the same object. Any difference is
+// reported in the op's output (seed C14-4: String() built its result with append on a buffer shared between a parsed key
+// and its children, so serialising a child overwrote the parent).
+func b32aliasCheck(str string, idx []uint32, want string) string {
+	p, err := hdkeychain.NewKeyFromString(str)
+	if err != nil {
+		return ""
+	}
+	before := p.String()
+	sib := []uint32{0, 1}
+	if len(idx) > 0 {
+		sib = []uint32{idx[0], idx[0] ^ 1}
+	}
+	for _, i := range sib {
+		c, err := p.Child(i)
+		if err != nil {
+			continue
+		}
+		_ = c.String()
+		if c.IsPrivate() {
+			if n, err := c.Neuter(); err == nil {
+				_ = n.String()
+			}
+		}
+		if g, err := c.Child(0); err == nil {
+			_ = g.String()
+		}
+	}
+	if p.IsPrivate() {
+		if n, err := p.Neuter(); err == nil {
+			_ = n.String()
+		}
+	}
+	if after := p.String(); after != before {
+		return "ALIAS:parent-changed"
+	}
+	k := p
+	for _, i := range idx {
+		if k, err = k.Child(i); err != nil {
+			return "ALIAS:rederive-" + bip32Err(err)
+		}
+	}
+	if k.String() != want {
+		return "ALIAS:rederived-differs"
+	}
+	return ""
+}
+
 func bip32Err(err error) string {
 	switch err {
 	case hdkeychain.ErrInvalidSeedLen:
@@ -148,6 +198,9 @@ func execBip32(a []string) string {
 				return bip32Err(err)
 			}
 			out += " " + pub.String()
+		}
+		if al := b32aliasCheck(a[1], idx, k.String()); al != "" {
+			return out + " " + al
 		}
 		return out
 	case len(a) == 2 && a[0] == "parse":
